@@ -351,7 +351,9 @@ fn value_to_sql_literal(value: &OwnedValue) -> String {
                     "'-Infinity'".to_string()
                 }
             } else {
-                f.to_string()
+                // `{:?}` keeps a decimal point or an exponent (5.0, 1e22, 1e-7): `to_string()` prints 1e22 as a
+                // 23-digit integer literal, which is a different (and unparsable) value in the statement
+                format!("{:?}", f)
             }
         }
         OwnedValue::Text(s) => {
